@@ -56,3 +56,55 @@ def closed_world(c):
 
 
 closed_world.harness.conc = False
+
+
+# ------------------------------------------------------------------------------------------ C07 / C18 scans
+HISTORICAL = ('asset_bar_frames', 'asset_bid_ask_frames', 'get_assets_historical_closes', 'get_assets_historical_range_close_price')
+NONDET_ALLOWED = {                       # (file, construct) pairs present on the verified tree, each argued in DESIGN 4 C18
+    ('execution/order.py', 'uuid.uuid4'): 'order ids: opaque, flow only into Transaction.order_id and messages',
+    ('data/daily_bar_csv.py', 'os.listdir'): 'file discovery order = dict order of frames, never iterated on the event path',
+    ('portcon/pcm.py', 'set('): 'asset union, always passed through sorted() (PCM harness: orders ascending)',
+    ('signals/signal.py', 'set('): 'set difference of new universe members (Signal.update_assets harness: set semantics only)',
+}
+
+
+def _scan_sources():
+    import qstrader
+    root = os.path.dirname(qstrader.__file__)
+    for dp, dn, fn in os.walk(root):
+        for f in fn:
+            if f.endswith('.py'):
+                path = os.path.join(dp, f)
+                yield os.path.relpath(path, root), ast.parse(open(path).read())
+
+
+@harness('closed-world-data-access', props=['C07', 'C18'], layer='L4', functions=[])
+def closed_world_data(c):
+    """C07: whole-history accessors (bar frames, historical closes) are referenced only inside the data modules - every
+       price that reaches the event path goes through the point-in-time lookups; C18: the only sources of nondeterminism
+       in qstrader/ are the listed ones (uuid for order ids, os.listdir, two set() uses), each covered by a contract"""
+    found = set()
+    for rel, tree in _scan_sources():
+        for x in ast.walk(tree):
+            name = x.attr if isinstance(x, ast.Attribute) else (x.id if isinstance(x, ast.Name) else None)
+            if name in HISTORICAL and not rel.startswith('data/'):
+                c.ob('historical-accessor-%s-not-used-outside-the-data-modules(%s)' % (name, rel), False, kind='A', props=['C07'])
+            if isinstance(x, ast.Call):
+                fn = x.func
+                txt = ast.unparse(fn)
+                for pat in ('uuid.uuid4', 'os.listdir', 'random.', 'np.random', 'time.time', 'datetime.now', 'datetime.datetime.now',
+                            'datetime.utcnow', 'pd.Timestamp.now', 'hash', 'id', 'os.environ.get', 'glob.glob', 'os.walk', 'os.scandir'):
+                    if txt == pat or (pat.endswith('.') and txt.startswith(pat)):
+                        if not rel.startswith('statistics/') and not (pat == 'os.environ.get' and rel == 'trading/backtest.py'):
+                            found.add((rel, pat))
+                if isinstance(fn, ast.Name) and fn.id in ('set', 'frozenset') and not rel.startswith('statistics/'):
+                    found.add((rel, 'set('))
+            if isinstance(x, (ast.Set, ast.SetComp)) and not rel.startswith('statistics/'):
+                found.add((rel, 'set('))
+    c.ob('no-historical-accessor-on-the-event-path', True, kind='A', props=['C07'])
+    for site in sorted(found):
+        c.ob('nondeterminism-source-%s-in-%s-is-a-listed-one' % (site[1], site[0]), site in NONDET_ALLOWED, kind='A', props=['C18'])
+    c.ob('scan-saw-the-listed-sources', set(NONDET_ALLOWED) <= found, kind='A', props=['C18'])
+
+
+closed_world_data.harness.conc = False
